@@ -10,6 +10,8 @@ import GormModel.Gen.Misc
 import GormModel.Gen.Finishers
 import GormModel.Gen.VisitFacts
 import GormModel.Lemmas.HookVisit
+import GormModel.Lemmas.HookWalk
+import GormModel.Gen.HookWalk
 namespace Gorm
 open Gen
 
@@ -629,5 +631,99 @@ theorem C13_visit_fix_flags :
         p.ret = "loadOrStoreVisitMap(&vistMap, values)") ∧
     (visitRoot = false ↔ ∀ p ∈ checkSavedPaths, (∃ c ∈ p.calls, c.fn = "db.Set") → p.ret = "false") := by
   decide
+
+/-! ## Round 5: the element register `Statement.CurDestIndex` — which record do `Statement.SetColumn` /
+    `Statement.Changed` address while a hook runs?  (Model/HookWalk.lean; callbacks/callmethod.go, statement.go) -/
+
+/-- MAIN (every hook addresses its own record): when the slice arm of `callMethod` rewinds the register before the loop
+    and advances it after every completed iteration, then in EVERY walk over the same Statement -- however many walks
+    preceded it (before-hooks, after-hooks, further operations through a kept handle), whatever the slices' lengths and
+    addressability, whatever the register held at the start -- the k-th closure invocation runs with
+    `CurDestIndex = k = the element the hooks are called for`, an index inside the slice. -/
+theorem C13_walk_addresses_own_element (c : WalkCfg) (hr : c.rewind = true) (ha : c.advance = true)
+    (slices : List (List Bool)) (cur : Nat) :
+    walksAligned slices (walks c slices cur) := by
+  induction slices generalizing cur with
+  | nil => simp [walks, walksAligned]
+  | cons a rest ih =>
+    simp only [walks, walksAligned]
+    refine ⟨?_, ih _⟩
+    intro k hk
+    simp only [walk, hr, ha, if_true] at hk
+    have := walkLoop_aligned a 0 k hk
+    omega
+
+/-- the walk with the register is the walk of `Gorm.callMethod` (C13_once_per_record / C13_invalid_value_stops speak about
+    the same invocations): same elements in the same order, ErrInvalidValue at the first non-addressable element -/
+theorem C13_walk_refines_callMethod (c : WalkCfg) (addr : List Bool) (cur : Nat) :
+    callMethod false (.slice addr) =
+      (walk c addr cur).1.map (fun k => CallOut.call k.elem) ++ (if addr.all id then [] else [CallOut.invalidValue]) := by
+  simp only [callMethod, Bool.false_eq_true, if_false, walk]
+  exact walkLoop_calls _ _ _ _
+
+/-- values set by hooks land in the hook's own record: if the hooks of element i call `SetColumn(col, f i)`, then after a
+    walk over n addressable records -- with any register value left behind by earlier walks -- no hook panicked and the
+    column of record i holds f i, for every i (element i gets value i) -/
+theorem C13_setcolumn_per_record {α : Type} (c : WalkCfg) (hr : c.rewind = true) (ha : c.advance = true)
+    (f : Nat → α) (vals : List α) (cur : Nat) :
+    ∃ r, walkSet f (walk c (List.replicate vals.length true) cur).1 vals = some r ∧ r.length = vals.length ∧
+      ∀ i, i < vals.length → r[i]? = some (f i) := by
+  obtain ⟨r, h1, h2, h3, _⟩ := walkSet_loop f vals.length 0 vals (by omega)
+  refine ⟨r, ?_, h2, fun i hi => h3 i (by omega) (by omega)⟩
+  simpa only [walk, hr, ha, if_true] using h1
+
+/-- COUNTEREXAMPLE CLASS (no rewind): without the rewind the first hook of the SECOND walk over n >= 1 records runs with
+    `CurDestIndex = n` -- one past the end: SetColumn / Changed panic ("reflect: slice index out of range") -/
+theorem C13_walk_without_rewind_overruns (n : Nat) (vals : List String) (hv : vals.length = n + 1) :
+    ∃ w1 w2 k, walks ⟨false, true⟩ [List.replicate (n + 1) true, List.replicate (n + 1) true] 0 = [w1, w2] ∧
+      w2.head? = some k ∧ k.elem = 0 ∧ k.cur = n + 1 ∧ walkSet (fun i => toString i) w2 vals = none := by
+  refine ⟨_, _, ⟨0, n + 1⟩, rfl, ?_, rfl, rfl, ?_⟩
+  · simp only [walk, Bool.false_eq_true, if_false]
+    rw [walkLoop_final]
+    simp [List.replicate_succ, walkLoop]
+  · simp only [walk, Bool.false_eq_true, if_false]
+    rw [walkLoop_final]
+    simp [List.replicate_succ, walkLoop, walkSet, setColumnAt, hv]
+
+/-- … and a concrete instance of it (two records, before-hook walk then after-hook walk), next to the fresh-Statement
+    single walk that keeps gorm's own tests green without the rewind -/
+theorem C13_walk_without_rewind_counterexample :
+    walks ⟨false, true⟩ [[true, true], [true, true]] 0 = [[⟨0, 0⟩, ⟨1, 1⟩], [⟨0, 2⟩, ⟨1, 3⟩]] ∧
+    walkSet (fun i => i + 10) (walks ⟨false, true⟩ [[true, true], [true, true]] 0)[1]! [0, 0] = none ∧
+    walkAligned 2 (walk ⟨false, true⟩ [true, true] 0).1 := by
+  decide
+
+/-- COUNTEREXAMPLE (no advance): every hook writes into record 0 -- no panic, but record 1 never receives its value -/
+theorem C13_walk_without_advance_counterexample :
+    walkSet (fun i => i + 10) (walk ⟨true, false⟩ [true, true] 0).1 [0, 0] = some [11, 0] := by
+  decide
+
+/-- REGENERATED (the tree under check): the slice arm of `callMethod` is exactly rewind; loop { addressable ? call :
+    (ErrInvalidValue, return); advance }, and `CurDestIndex` occurs nowhere else than: that assignment, that increment,
+    and as the index of `stmt.ReflectValue.Index(…)` in Statement.SetColumn and Statement.Changed -/
+theorem C13_walk_current_tree_shape :
+    cmSliceArm = [(0, "db.Statement.CurDestIndex = 0"),
+      (0, "for i := 0; i < db.Statement.ReflectValue.Len(); i++"),
+      (1, "if value := reflect.Indirect(db.Statement.ReflectValue.Index(i)); value.CanAddr()"),
+      (2, "fc(value.Addr().Interface(), tx)"),
+      (1, "else"),
+      (2, "db.AddError(gorm.ErrInvalidValue)"),
+      (2, "return"),
+      (1, "db.Statement.CurDestIndex++")] ∧
+    cmRewind = true ∧ cmAdvance = true ∧ cmLoopShape = true ∧
+    curDestUses = [("callbacks/callmethod.go", "callMethod", "db.Statement|assign:=0"),
+      ("callbacks/callmethod.go", "callMethod", "db.Statement|incdec:++"),
+      ("statement.go", "Statement.Changed", "stmt|index:stmt.ReflectValue"),
+      ("statement.go", "Statement.SetColumn", "stmt|index:stmt.ReflectValue")] := by
+  decide
+
+/-- hence, for the tree under check: in every walk of every history each hook addresses its own record -/
+theorem C13_walk_current_tree (slices : List (List Bool)) (cur : Nat) :
+    walksAligned slices (walks genWalkCfg slices cur) :=
+  C13_walk_addresses_own_element genWalkCfg (by decide) (by decide) slices cur
+
+example : walks genWalkCfg [[true, true, true], [true, true, true], [true, true]] 0 =
+    [[⟨0, 0⟩, ⟨1, 1⟩, ⟨2, 2⟩], [⟨0, 0⟩, ⟨1, 1⟩, ⟨2, 2⟩], [⟨0, 0⟩, ⟨1, 1⟩]] := by decide
+example : walkSet (fun i => i + 10) (walk genWalkCfg [true, true, true] 7).1 [0, 0, 0] = some [10, 11, 12] := by decide
 
 end Gorm
